@@ -1,5 +1,8 @@
 import MetapypeModel.Model.Expand
 import MetapypeModel.Props.C01
+import MetapypeModel.Props.C05
+import MetapypeModel.Gen.Facts
+import MetapypeModel.Model.Lex
 /-
   C16 — reference expansion substitutes independent copies, atomically.
 -/
@@ -213,5 +216,406 @@ theorem C16_table_shapes : ∀ r ∈ Gen.rules, "references" ∈ r.children.name
     · exact ha
     · cases hm
   · cases h
+
+/-! ### "a tree that validated before still validates" -/
+
+section validity
+variable (L : Lexer) (T : Tables)
+
+mutual
+/-- whole-tree validation reports nothing: the node validates on its own and, unless it is `metadata`, so do its children -/
+def OkT : Tree → Prop
+  | .mk i n c tl p a e ns cs => collectNodeT L T (.mk i n c tl p a e ns cs) = [] ∧ (n = "metadata" ∨ OkL cs)
+def OkL : List Tree → Prop
+  | [] => True
+  | c :: cs => OkT c ∧ OkL cs
+end
+
+mutual
+theorem raw_nil_iff : ∀ (t : Tree) (path : Path), collectTreeRaw L T t path = [] ↔ OkT L T t
+  | .mk i n c tl p a e ns cs, path => by
+    simp only [collectTreeRaw, OkT, List.append_eq_nil_iff, List.map_eq_nil_iff]
+    by_cases hn : n = "metadata"
+    · simp [hn]
+    · simp only [hn, false_or, if_false]
+      rw [kidsRaw_nil_iff cs path 0]
+theorem kidsRaw_nil_iff : ∀ (cs : List Tree) (path : Path) (k : Nat), collectKidsRaw L T cs path k = [] ↔ OkL L T cs
+  | [], _, _ => by simp [collectKidsRaw, OkL]
+  | c :: cs, path, k => by
+    simp only [collectKidsRaw, OkL, List.append_eq_nil_iff]
+    rw [raw_nil_iff c (path ++ [k]), kidsRaw_nil_iff cs path (k + 1)]
+end
+
+theorem collectTree_nil_iff (t : Tree) : collectTree L T t = [] ↔ OkT L T t := by
+  unfold collectTree
+  rw [cutAtCrashP_eq_nil_iff, raw_nil_iff]
+
+theorem OkL_append : ∀ (a b : List Tree), OkL L T a → OkL L T b → OkL L T (a ++ b)
+  | [], _, _, hb => hb
+  | x :: a, b, ha, hb => by
+    simp only [OkL] at ha
+    simp only [List.cons_append, OkL]
+    exact ⟨ha.1, OkL_append a b ha.2 hb⟩
+
+mutual
+/-- a copy (fresh ids, everything else the same) validates exactly as its original -/
+theorem freshCopy_ok (u : Nat → String) : ∀ (t : Tree) (s : Nat), OkT L T t → OkT L T (freshCopy u t s).1
+  | .mk i n c tl p a e ns cs, s, h => by
+    simp only [OkT] at h
+    simp only [freshCopy, OkT]
+    refine ⟨?_, ?_⟩
+    · rw [← h.1]
+      simp only [collectNodeT, Tree.name, Tree.content, Tree.attrs, Tree.childNames, Tree.children, freshCopyL_names]
+    · rcases h.2 with h2 | h2
+      · exact Or.inl h2
+      · exact Or.inr (freshCopyL_ok u cs (s + 1) h2)
+theorem freshCopyL_ok (u : Nat → String) : ∀ (cs : List Tree) (s : Nat), OkL L T cs → OkL L T (freshCopyL u cs s).1
+  | [], s, _ => by simp [freshCopyL, OkL]
+  | c :: cs, s, h => by
+    simp only [OkL] at h
+    simp only [freshCopyL, OkL]
+    exact ⟨freshCopy_ok u c s h.1, freshCopyL_ok u cs _ h.2⟩
+end
+
+/-- child names after substitution: a `references` child gives way to the names of the referenced element's children -/
+def substNames (ids : List (String × Tree)) : List Tree → List String
+  | [] => []
+  | .mk _ n c _ _ _ _ _ _ :: cs =>
+    (if n = "references" then
+       (match c.bind (lookupId ids) with | some R => R.children.map Tree.name | none => [])
+     else [n]) ++ substNames ids cs
+
+theorem substT_name (u : Nat → String) (ids : List (String × Tree)) : ∀ (t : Tree) (s : Nat), (substT u ids t s).1.name = t.name
+  | .mk i n c tl p a e ns cs, s => by simp [substT, Tree.name]
+
+theorem substL_names (u : Nat → String) (ids : List (String × Tree)) : ∀ (cs : List Tree) (s : Nat),
+    (substL u ids cs s).1.map Tree.name = substNames ids cs
+  | [], s => rfl
+  | .mk i n c tl p a e ns ks :: cs, s => by
+    simp only [substL, substNames]
+    by_cases hn : n = "references"
+    · subst hn
+      simp only [if_true, List.map_append]
+      rw [substL_names u ids cs _]
+      congr 1
+      cases c with
+      | none => simp
+      | some k =>
+        simp only [Option.bind_some]
+        cases lookupId ids k with
+        | none => simp
+        | some R => simp [freshCopyL_names]
+    · rw [if_neg hn, if_neg hn]
+      simp only [List.map_cons, List.singleton_append]
+      rw [substL_names u ids cs _]
+      rw [substT_name u ids (.mk i n c tl p a e ns ks) s]
+      rfl
+
+theorem substNames_no_refs (ids : List (String × Tree)) : ∀ (cs : List Tree), "references" ∉ cs.map Tree.name →
+    substNames ids cs = cs.map Tree.name
+  | [], _ => rfl
+  | .mk i n c tl p a e ns ks :: cs, h => by
+    simp only [List.map_cons, List.mem_cons, not_or, Tree.name] at h
+    have hne : ¬ n = "references" := fun e => h.1 e.symm
+    simp only [substNames, List.map_cons, Tree.name]
+    rw [if_neg hne, substNames_no_refs ids cs h.2]
+    rfl
+
+/-- without mixed content the content checks do not look at the children -/
+theorem validateContent_nKids (r : Rule) (n1 n2 : Nat) (c : Option String) :
+    validateContent L r false n1 c = validateContent L r false n2 c := by
+  unfold validateContent
+  congr 1
+
+theorem validateChildrenRaw_name (n1 n2 : String) (h1 : n1 ≠ "metadata") (h2 : n2 ≠ "metadata") (M : Bool) (sp : Spec) (xs : List String) :
+    validateChildrenRaw n1 M sp xs = validateChildrenRaw n2 M sp xs := by
+  simp only [validateChildrenRaw, if_neg h1, if_neg h2]
+
+theorem validateRule_nil_iff (r : Rule) (n : String) (c : Option String) (a : Dict) (ks : List String) :
+    validateRule L T.mixedRules r n c a ks = [] ↔
+      validateContent L r (isMixed T.mixedRules r) ks.length c = [] ∧ validateAttrs r.attrs a = [] ∧
+      validateChildrenRaw n (isMixed T.mixedRules r) r.children ks = [] := by
+  simp only [validateRule, cutAtCrash_eq_nil_iff, List.append_eq_nil_iff, and_assoc]
+
+/-- the two shapes that rules permitting `references` have (`C16_table_shapes`), in the class of C01, without mixed content -/
+def RefRuleOK (r : Rule) : Prop :=
+  wfTop r.children = true ∧ isMixed T.mixedRules r = false ∧
+  ((∃ alts mn, r.children = .choice alts mn (some 1) ∧ Spec.leaf "references" 1 (some 1) ∈ alts) ∨
+   (∃ alts mn, r.children = .seq [.choice alts mn (some 1), .leaf "role" 1 none] ∧ Spec.leaf "references" 1 (some 1) ∈ alts))
+
+/-- a referenced element: governed by rule `r`, validated (itself and its children), holding no `references` -/
+structure SrcOK (R : Tree) (r : Rule) : Prop where
+  name_ne : R.name ≠ "metadata"
+  rule : T.ruleOf R.name = some (some r)
+  node : collectNodeT L T R = []
+  kids : OkL L T R.children
+  norefs : NoRefsL R.children
+
+theorem raw_nil_of_lang (r : Rule) (n : String) (hn : n ≠ "metadata") (hw : wfTop r.children = true) (M : Bool) (xs : List String)
+    (h : Lang true M r.children xs) : validateChildrenRaw n M r.children xs = [] := by
+  have := (C01_accept_iff r.children hw n hn M xs).mpr h
+  simpa [validateChildren, cutAtCrash_eq_nil_iff] using this
+
+theorem lang_of_raw_nil (r : Rule) (n : String) (hn : n ≠ "metadata") (hw : wfTop r.children = true) (M : Bool) (xs : List String)
+    (h : validateChildrenRaw n M r.children xs = []) : Lang true M r.children xs :=
+  (C01_accept_iff r.children hw n hn M xs).mp (by simp [validateChildren, h, cutAtCrash])
+
+theorem not_mem_replicate_role (k : Nat) : "references" ∉ List.replicate k "role" := by
+  intro h; have := (List.mem_replicate.mp h).2; exact absurd this (by decide)
+
+/-- words of `[choice, role{1,∞}]` -/
+theorem lang_choice_role (M : Bool) (alts : List Spec) (mn : Nat) (w : List String) :
+    Lang true M (.seq [.choice alts mn (some 1), .leaf "role" 1 none]) w ↔
+      ∃ w1 k, w = w1 ++ List.replicate k "role" ∧ Lang true M (.choice alts mn (some 1)) w1 ∧ 1 ≤ k := by
+  simp only [Lang, LangSeq]
+  constructor
+  · rintro ⟨w1, w2, rfl, h1, w3, w4, rfl, ⟨k, hk, _, rfl⟩, rfl⟩
+    exact ⟨w1, k, by simp, by simpa [Lang] using h1, hk⟩
+  · rintro ⟨w1, k, rfl, h1, hk⟩
+    exact ⟨w1, List.replicate k "role", rfl, by simpa [Lang] using h1, List.replicate k "role", [], by simp, ⟨k, hk, by simp [withinMax], rfl⟩, rfl⟩
+
+/-- the crux: a valid node whose `references` children name valid elements of the same rule is still valid after substitution -/
+theorem node_subst_ok (ids : List (String × Tree)) (n : String) (c : Option String) (a : Dict) (cs : List Tree) (r : Rule)
+    (hn : n ≠ "metadata") (hr : T.ruleOf n = some (some r)) (hrr : RefRuleOK T r)
+    (hvalid : collectNode L T n c a (cs.map Tree.name) = [])
+    (hrefs : ∀ x ∈ cs, x.name = "references" → ∃ k R, x.content = some k ∧ lookupId ids k = some R ∧ SrcOK L T R r) :
+    collectNode L T n c a (substNames ids cs) = [] := by
+  by_cases href : "references" ∈ cs.map Tree.name
+  case neg => rw [substNames_no_refs ids cs href]; exact hvalid
+  obtain ⟨hw, hmix, hshape⟩ := hrr
+  simp only [collectNode, hr, validateRule_nil_iff, hmix] at hvalid ⊢
+  obtain ⟨hc, ha, hk⟩ := hvalid
+  have hlang := lang_of_raw_nil r n hn hw false _ hk
+  have hnd : r.children.names.Nodup := by
+    simp only [wfTop, Bool.and_eq_true, decide_eq_true_eq] at hw; exact hw.1
+  -- what a referenced element contributes
+  have src_children : ∀ R, SrcOK L T R r → validateChildrenRaw n false r.children (R.children.map Tree.name) = [] := by
+    intro R hR
+    have h := hR.node
+    simp only [collectNodeT, collectNode, hR.rule, validateRule_nil_iff, hmix] at h
+    rw [validateChildrenRaw_name n R.name hn hR.name_ne]
+    exact h.2.2
+  rcases hshape with ⟨alts, mn, hsp, hmem⟩ | ⟨alts, mn, hsp, hmem⟩
+  · -- the whole children section is the exactly-one choice: `references` stands alone
+    rw [hsp] at hlang hnd
+    have hone := C16_references_alone false alts mn _ (by simpa [Spec.names] using hnd) hlang hmem href
+    cases cs with
+    | nil => simp at hone
+    | cons x rest =>
+      cases rest with
+      | cons y rest' => simp at hone
+      | nil =>
+        cases x with
+        | mk xi xn xc xtl xp xa xe xns xks =>
+          simp only [List.map_cons, List.map_nil, Tree.name, List.cons.injEq, and_true] at hone
+          subst hone
+          obtain ⟨k, R, hxc, hlk, hR⟩ := hrefs _ List.mem_cons_self rfl
+          simp only [Tree.content] at hxc
+          subst hxc
+          simp only [substNames, if_true, Option.bind_some, hlk, List.append_nil]
+          refine ⟨?_, ha, src_children R hR⟩
+          rw [validateContent_nKids L r _ 1]
+          simpa using hc
+  · -- choice followed by `role`+ : `references` is the whole first part
+    rw [hsp] at hlang hnd
+    obtain ⟨w1, k, hw1, hl1, hk1⟩ := (lang_choice_role false alts mn _).mp hlang
+    have hin1 : "references" ∈ w1 := by
+      rw [hw1] at href
+      rcases List.mem_append.mp href with h | h
+      · exact h
+      · exact absurd h (not_mem_replicate_role k)
+    have hndA : (Spec.namesL alts).Nodup := by
+      simp only [Spec.names, Spec.namesL, List.append_nil] at hnd
+      exact (List.nodup_append.mp hnd).1
+    have hone := C16_references_alone false alts mn w1 hndA hl1 hmem hin1
+    subst hone
+    cases cs with
+    | nil => simp at hw1
+    | cons x rest =>
+      cases x with
+      | mk xi xn xc xtl xp xa xe xns xks =>
+        simp only [List.map_cons, Tree.name, List.singleton_append, List.cons.injEq] at hw1
+        obtain ⟨hxn, hrest⟩ := hw1
+        subst hxn
+        obtain ⟨kk, R, hxc, hlk, hR⟩ := hrefs _ List.mem_cons_self rfl
+        simp only [Tree.content] at hxc
+        subst hxc
+        have hnr : "references" ∉ rest.map Tree.name := by rw [hrest]; exact not_mem_replicate_role k
+        simp only [substNames, if_true, Option.bind_some, hlk]
+        rw [substNames_no_refs ids rest hnr, hrest]
+        -- the referenced element's own child names
+        have hRl := lang_of_raw_nil r n hn hw false _ (src_children R hR)
+        rw [hsp] at hRl
+        obtain ⟨v1, j, hv, hlv, hj⟩ := (lang_choice_role false alts mn _).mp hRl
+        refine ⟨?_, ha, ?_⟩
+        · rw [validateContent_nKids L r _ (List.map Tree.name (Tree.mk xi "references" (some kk) xtl xp xa xe xns xks :: rest)).length]
+          exact hc
+        · apply raw_nil_of_lang r n hn hw
+          rw [hsp, hv]
+          apply (lang_choice_role false alts mn _).mpr
+          refine ⟨v1, j + k, ?_, hlv, by omega⟩
+          rw [List.append_assoc, List.replicate_append_replicate]
+
+mutual
+/-- the property's hypothesis, at every node: every `references` child names an element that is validated itself, governed by
+    the same rule as the referencing element, and free of references; the referencing element is not a `metadata` element (see the
+    recorded finding D16) and its rule has one of the two table shapes -/
+def RefHyp (ids : List (String × Tree)) : Tree → Prop
+  | .mk _ n _ _ _ _ _ _ cs =>
+      ("references" ∈ cs.map Tree.name →
+          n ≠ "metadata" ∧ ∃ r, T.ruleOf n = some (some r) ∧ RefRuleOK T r ∧
+            ∀ x ∈ cs, x.name = "references" → ∃ k R, x.content = some k ∧ lookupId ids k = some R ∧ SrcOK L T R r) ∧
+      RefHypL ids cs
+def RefHypL (ids : List (String × Tree)) : List Tree → Prop
+  | [] => True
+  | c :: cs => RefHyp ids c ∧ RefHypL ids cs
+end
+
+mutual
+theorem substT_ok (u : Nat → String) (ids : List (String × Tree)) : ∀ (t : Tree) (s : Nat),
+    OkT L T t → RefHyp L T ids t → OkT L T (substT u ids t s).1
+  | .mk i n c tl p a e ns cs, s, hok, hyp => by
+    simp only [OkT] at hok
+    simp only [RefHyp] at hyp
+    simp only [substT, OkT]
+    obtain ⟨hnode, hkids⟩ := hok
+    obtain ⟨hrefs, hrec⟩ := hyp
+    have hnames : (Tree.mk i n c tl p a e ns (substL u ids cs s).1).childNames = substNames ids cs := by
+      simp only [Tree.childNames, Tree.children]; exact substL_names u ids cs s
+    by_cases href : "references" ∈ cs.map Tree.name
+    · obtain ⟨hn, r, hr, hrr, hall⟩ := hrefs href
+      refine ⟨?_, Or.inr ?_⟩
+      · simp only [collectNodeT, hnames, Tree.name, Tree.content, Tree.attrs]
+        exact node_subst_ok L T ids n c a cs r hn hr hrr (by simpa [collectNodeT, Tree.childNames, Tree.name, Tree.content, Tree.attrs, Tree.children] using hnode) hall
+      · have hk : OkL L T cs := by
+          rcases hkids with h | h
+          · exact absurd h hn
+          · exact h
+        apply substL_ok u ids cs s hk hrec
+        intro x hx hxn
+        obtain ⟨k, R, h1, h2, h3⟩ := hall x hx hxn
+        exact ⟨k, R, h1, h2, h3.kids⟩
+    · refine ⟨?_, ?_⟩
+      · simp only [collectNodeT, hnames, Tree.name, Tree.content, Tree.attrs]
+        rw [substNames_no_refs ids cs href]
+        simpa [collectNodeT, Tree.childNames, Tree.name, Tree.content, Tree.attrs, Tree.children] using hnode
+      · rcases hkids with h | h
+        · exact Or.inl h
+        · right
+          apply substL_ok u ids cs s h hrec
+          intro x hx hxn
+          exact absurd (List.mem_map.mpr ⟨x, hx, hxn⟩) href
+theorem substL_ok (u : Nat → String) (ids : List (String × Tree)) : ∀ (cs : List Tree) (s : Nat),
+    OkL L T cs → RefHypL L T ids cs →
+    (∀ x ∈ cs, x.name = "references" → ∃ k R, x.content = some k ∧ lookupId ids k = some R ∧ OkL L T R.children) →
+    OkL L T (substL u ids cs s).1
+  | [], s, _, _, _ => by simp [substL, OkL]
+  | .mk i n c tl p a e ns ks :: cs, s, hok, hyp, hsrc => by
+    simp only [OkL] at hok
+    simp only [RefHypL] at hyp
+    simp only [substL]
+    have hrest : ∀ s', OkL L T (substL u ids cs s').1 :=
+      fun s' => substL_ok u ids cs s' hok.2 hyp.2 (fun x hx => hsrc x (List.mem_cons_of_mem _ hx))
+    by_cases hn : n = "references"
+    · rw [if_pos hn]
+      simp only
+      apply OkL_append
+      · obtain ⟨k, R, h1, h2, h3⟩ := hsrc _ List.mem_cons_self (by simp [Tree.name, hn])
+        simp only [Tree.content] at h1
+        subst h1
+        simp only [h2]
+        exact freshCopyL_ok L T u R.children s h3
+      · exact hrest _
+    · rw [if_neg hn]
+      simp only [OkL]
+      exact ⟨substT_ok u ids (.mk i n c tl p a e ns ks) s hok.1 hyp.1, hrest _⟩
+end
+
+/-- **a tree that validated before still validates**: if whole-tree validation reports nothing for `root`, the property's
+    hypothesis holds at every node (`RefHyp`) and expansion succeeds, then whole-tree validation reports nothing for the result -/
+theorem C16_validity (u : Nat → String) (root t' : Tree) (s : Nat)
+    (hvalid : collectTree L T root = []) (hyp : RefHyp L T (idsOf root) root) (h : expandT u root s = some t') :
+    collectTree L T t' = [] := by
+  simp only [expandT] at h
+  split at h
+  · cases h
+  · split at h
+    · cases h
+    · simp only [Option.some.injEq] at h; subst h
+      rw [collectTree_nil_iff] at hvalid ⊢
+      exact substT_ok L T u _ root s hvalid hyp
+
+end validity
+
+/-- every rule of the regenerated table that permits `references` meets the rule-side hypothesis of `C16_validity` -/
+theorem C16_table_ref_rules : ∀ r ∈ Gen.rules, "references" ∈ r.children.names → RefRuleOK Gen.tables r := by
+  intro r hr hin
+  have hmix : ∀ r ∈ Gen.rules, "references" ∈ r.children.names → isMixed Gen.tables.mixedRules r = false := by decide +kernel
+  exact ⟨C01_table_wf r hr, hmix r hr hin, C16_table_shapes r hr hin⟩
+
+/-- … and no element maps to a rule permitting `references` under the name `metadata` (the case the finding D16 is about lies
+    outside: `metadata` content is never matched against a rule) -/
+theorem C16_table_metadata_rule :
+    (match Gen.tables.ruleOf "metadata" with
+     | some (some r) => !(r.children.names.contains "references")
+     | _ => true) = true := by
+  decide +kernel
+
+
+/-! non-vacuity of `C16_validity` on the regenerated tables, and the witness of finding D16 -/
+
+def mkT (n : String) (c : Option String) (a : Dict) (cs : List Tree) : Tree := .mk "" n c none none a [] [] cs
+
+def srcT : Tree := mkT "creator" none [("id", "p0")] [mkT "organizationName" (some "o") [] []]
+def dsT : Tree := mkT "dataset" none [] [mkT "title" (some "t") [] [], srcT, mkT "contact" none [] [mkT "references" (some "p0") [] []]]
+
+theorem mem_of_ruleOf (T : Tables) (e : String) (r : Rule) (h : T.ruleOf e = some (some r)) : r ∈ T.rules := by
+  unfold Tables.ruleOf at h
+  split at h
+  · cases h
+  · simp only [Option.some.injEq] at h
+    exact List.mem_of_find?_eq_some h
+
+/-- non-vacuity: a dataset whose contact references its creator validates and satisfies the hypothesis of `C16_validity` -/
+example : collectTree Lex.lexer Gen.tables dsT = [] ∧ RefHyp Lex.lexer Gen.tables (idsOf dsT) dsT := by
+  refine ⟨by decide +kernel, ?_⟩
+  have hr : ∃ r, Gen.tables.ruleOf "contact" = some (some r) := ⟨_, rfl⟩
+  obtain ⟨r, hr⟩ := hr
+  have hrm : r ∈ Gen.rules := mem_of_ruleOf Gen.tables "contact" r hr
+  have hcr : Gen.tables.ruleOf "creator" = some (some r) := by rw [← hr]; rfl
+  have vac : ∀ (l : List String) (P : Prop), "references" ∉ l → ("references" ∈ l → P) := fun _ _ h h' => absurd h' h
+  simp only [dsT, srcT, mkT, RefHyp, RefHypL, List.map_cons, List.map_nil, Tree.name]
+  refine ⟨vac _ _ (by decide), ⟨vac _ _ (by decide), trivial⟩, ⟨vac _ _ (by decide), ⟨vac _ _ (by decide), trivial⟩, trivial⟩, ⟨?_, ⟨vac _ _ (by decide), trivial⟩, trivial⟩, trivial⟩
+  intro _
+  refine ⟨by decide, r, hr, C16_table_ref_rules r hrm ?_, ?_⟩
+  · have : ∀ r' : Rule, Gen.tables.ruleOf "contact" = some (some r') → "references" ∈ r'.children.names := by
+      intro r' h'
+      have e : Gen.tables.ruleOf "contact" = some (some _) := rfl
+      rw [e] at h'
+      simp only [Option.some.injEq] at h'
+      subst h'
+      decide
+    exact this r hr
+  · intro x hx hxn
+    simp only [List.mem_singleton] at hx
+    subst hx
+    refine ⟨"p0", _, rfl, rfl, ?_⟩
+    exact ⟨by decide, hcr, by decide +kernel, ⟨⟨by decide +kernel, Or.inr trivial⟩, trivial⟩, by simp [NoRefsL, Tree.children]⟩
+
+def d16 : Tree :=
+  mkT "eml" none [("packageId", "p"), ("system", "s")]
+    [ mkT "access" none [("authSystem", "a")] [mkT "allow" none [] [mkT "principal" (some "p") [] [], mkT "permission" (some "read") [] []]],
+      mkT "dataset" none [] [mkT "title" (some "t") [] [], mkT "creator" none [] [mkT "organizationName" (some "o") [] []],
+                              mkT "contact" none [] [mkT "organizationName" (some "o") [] []]],
+      mkT "additionalMetadata" none [] [mkT "metadata" none [] [mkT "metadata" none [("id", "m1")] [mkT "x" none [] [], mkT "y" none [] []]]],
+      mkT "additionalMetadata" none [] [mkT "metadata" none [] [mkT "references" (some "m1") [] []]] ]
+
+/-- finding D16, on the model: the hypothesis that every referenced element is itself validated cannot be dropped.  Here the
+    referencing and the referenced element are both `metadata` elements (the same rule), the referenced one lies below a
+    `metadata` element and is never validated, the tree validates - and does not validate any more after expansion. -/
+theorem C16_finding_D16_witness : (collectTree Lex.lexer Gen.tables d16).isEmpty = true ∧
+    (match expandT (fun k => toString k) d16 0 with
+     | some t' => !(collectTree Lex.lexer Gen.tables t').isEmpty
+     | none => false) = true := by decide +kernel
 
 end Metapype
